@@ -421,7 +421,7 @@ def run_method(ctx, fname, mode):
         pre_writes = it.model_writes
         for e in ps[0].stmts():
             it.step(e.node)
-        problems = list(it.problems)
+        problems = list(dict.fromkeys(it.problems))      # (each text once, in order)
         if not it.stencils:
             problems.append('no stencil assignment for method %s' % method)
             offs = {}
